@@ -818,14 +818,16 @@ theorem bye_mcast_of_run (hsv : Function.Injective N.svcId) (steps : List Step) 
 
 /-! ### K2 and K6 for a link trace whose hosts are runs of the machine -/
 
-/-- every host's part of the link trace — its sends (instant and items, both ways), the `reg`s and `unreg`s of its services — is
-that of a disciplined, fair timed run of the C08 host machine that is not closed before the end of the window -/
+/-- every host's part of the link trace that the C08 host machine owns — its sends **that carry a pointer record** (instant, items
+and destination, both ways; a host's questions belong to its browsers and its probes, not to this machine), the `reg`s and `unreg`s
+of its services — is that of a disciplined, fair timed run of the machine that is not closed before the end of the window -/
 def Generated (tr : Link.Trace) (endT : Int) : Prop :=
   ∀ hid : Nat, ∃ (N : Naming) (steps : List Step) (T0 : Int),
     N.host = hid ∧ Function.Injective N.tyId ∧ Function.Injective N.svcId ∧
     IsRun lower Host.init T0 steps ∧ (∀ st ∈ steps, Disc lower st ∧ Disc2 lower st) ∧ Spaced lower N [] steps ∧
     Fair steps endT ∧ Open steps ∧
-    (∀ sd ∈ Link.sends tr, sd.h = hid → ∃ sd' ∈ Link.sends (events lower N steps), sd'.t = sd.t ∧ sd'.items = sd.items ∧ sd'.dst = sd.dst) ∧
+    (∀ sd ∈ Link.sends tr, sd.h = hid → Link.ptrSvcs sd.items ≠ [] →
+      ∃ sd' ∈ Link.sends (events lower N steps), sd'.t = sd.t ∧ sd'.items = sd.items ∧ sd'.dst = sd.dst) ∧
     (∀ sd' ∈ Link.sends (events lower N steps), ∃ sd ∈ Link.sends tr, sd.h = hid ∧ sd.t = sd'.t ∧ sd.items = sd'.items ∧ sd.dst = sd'.dst) ∧
     (∀ x ∈ Link.regs (events lower N steps), x ∈ Link.regs tr) ∧
     (∀ x ∈ Link.unregs tr, x.2.owner = hid → x ∈ Link.unregs (events lower N steps)) ∧
@@ -841,6 +843,7 @@ theorem byeMulticast_of_generated (tr : Link.Trace) (endT : Int) (hg : Generated
   intro sd hsd s hbye
   obtain ⟨N, steps, T0, _, _, hsv, hrun, hd, _, _, _, hsends, _⟩ := hg sd.h
   obtain ⟨sd', hsd', _, hit, hdst⟩ := hsends sd hsd rfl
+    (List.ne_nil_of_mem (Link.ptrOf_mem (Link.bye_iff.mp hbye).choose_spec))
   rw [← hdst]
   exact bye_mcast_of_run lower N hsv steps T0 hrun hd sd' hsd' s (by rw [hit]; exact hbye)
 
@@ -848,8 +851,8 @@ theorem Generated_K6 (tr : Link.Trace) (endT : Int) (hg : Generated lower tr end
   intro hid
   obtain ⟨N, steps, T0, h1, h2, h3, h4, h5, h6, _, _, h9, _, h11, h12, _⟩ := hg hid
   refine ⟨N, steps, T0, h1, h2, h3, h4, fun st hst => (h5 st hst).1, h6, ?_, h11, h12⟩
-  intro sd hsd hh
-  obtain ⟨sd', hsd', e1, e2, _⟩ := h9 sd hsd hh
+  intro sd hsd hh hne
+  obtain ⟨sd', hsd', e1, e2, _⟩ := h9 sd hsd hh hne
   exact ⟨sd', hsd', e1, e2⟩
 
 theorem K2_of_generated (tr : Link.Trace) (endT : Int) (hg : Generated lower tr endT) :
@@ -868,7 +871,7 @@ theorem K2_of_generated (tr : Link.Trace) (endT : Int) (hg : Generated lower tr 
     | false => rfl
     | true =>
       obtain ⟨N, steps, T0, hN, _, hsv, hrun, hd, _, _, _, hsends, _, _, _, hun⟩ := hg sd.h
-      obtain ⟨sd', hsd', ht, hit, _⟩ := hsends sd hsd rfl
+      obtain ⟨sd', hsd', ht, hit, _⟩ := hsends sd hsd rfl (List.ne_nil_of_mem hs)
       have hk := K2s_of_run lower N hsv steps T0 hrun hd
       have h1 := List.all_eq_true.mp (List.all_eq_true.mp hk sd' hsd') s (by rw [hit]; exact hs)
       rw [hit, hbye] at h1
